@@ -15,7 +15,7 @@ git apply "$src/patch.diff" || { echo "PATCH DOES NOT APPLY"; cd /; git -C /repo
 tests=$(/venv/bin/python -m pytest -q -p no:cacheprovider --timeout=900 tests 2>&1 | tail -1)
 cd /; git -C /repo worktree remove --force "$wt"
 echo "$name: demo clean=$clean mutated=$mut tests: $tests"
-if [ "$clean" = 0 ] && [ "$mut" = 1 ] && echo "$tests" | grep -q "2 failed, 36 passed"; then
+if [ "$clean" = 0 ] && [ "$mut" = 1 ] && echo "$tests" | grep -q -E "^38 passed|2 failed, 36 passed"; then
   mkdir -p /verif/seeded/$name
   cp "$src/patch.diff" "$src/demo.py" /verif/seeded/$name/
   [ -f "$src/notes.md" ] && cp "$src/notes.md" /verif/seeded/$name/
